@@ -297,6 +297,8 @@ class Translator:
                 obj[_pykey(idx)] = v
             elif isinstance(obj, np.ndarray) and obj.dtype == object and not isinstance(idx, (tuple, list)):
                 obj[_pyint(idx)] = v  # element / row store into a component array (views write through)
+            elif isinstance(obj, np.ndarray) and obj.dtype == object and isinstance(idx, (tuple, list)) and all(not isinstance(i, (slice, type(None), type(Ellipsis))) for i in idx):
+                obj[tuple(_pyint(i) for i in idx)] = v  # multi-index store addresses the same element as chained indexing
             else:
                 raise Unmodelled("subscript store on symbolic value")
         elif isinstance(t, ast.Attribute):
@@ -343,6 +345,8 @@ class Translator:
                 return v
             if isinstance(n.op, ast.Not):
                 return not self.truth(v, n)
+            if isinstance(n.op, ast.Invert) and _boolish(v):
+                return arr_map(sp.Not, v) if is_arr(v) else sp.Not(v)  # ~mask
             raise Unmodelled("unary op")
         if isinstance(n, ast.BoolOp):
             # short-circuit evaluation, as in Python
@@ -452,6 +456,12 @@ class Translator:
             v = self.eval(e, env, mod, depth)
             if v is None or (isinstance(v, Opaque) and v.name.split(".")[-1] == "newaxis"):
                 return None
+            if isinstance(v, (list, tuple)) and v and all(x is sp.true or x is sp.false or isinstance(x, bool) for x in v):
+                v = np.array(list(v), dtype=object)
+            if isinstance(v, np.ndarray) and v.dtype == object and v.size and all(x is sp.true or x is sp.false or isinstance(x, bool) for x in v.reshape(-1)):
+                return np.array([bool(x) for x in v.reshape(-1)], dtype=bool).reshape(v.shape)  # decided boolean mask
+            if isinstance(v, np.ndarray) and v.dtype == object and all(is_sym(x) and x.is_Integer for x in v.reshape(-1)):
+                return np.array([int(x) for x in v.reshape(-1)], dtype=int).reshape(v.shape)
             return _pyint(v)
 
         idx = tuple(one(e) for e in sl.elts) if isinstance(sl, ast.Tuple) else one(sl)
@@ -464,6 +474,8 @@ class Translator:
         """an object whose class defines __iter__ iterates over what that method returns"""
         if isinstance(it, SelfObj) and it.cls is not None and it.cls.lookup("__iter__") is not None:
             return self.apply(BoundMethod(it.cls.lookup("__iter__"), it), [], {}, node, depth)
+        if isinstance(it, np.ndarray) and it.dtype == object and it.ndim >= 1:
+            return [it[k] for k in range(it.shape[0])]  # iteration over the first axis
         return it
 
     def comprehension(self, n, env, mod, depth, pair=False):
@@ -1009,6 +1021,8 @@ class Translator:
                 return tuple(_pyint(x) for x in v)  # reduction over several axes
             return None if v is None else _pyint(v)
 
+        if last == "copy" and d.split(".")[0] in ("np", "numpy") and isinstance(a0, np.ndarray):
+            return a0.copy()
         if last in ("reduce_sum", "sum") and isinstance(a0, (list, tuple)) and a0 and all(is_sym(x) or isinstance(x, (int, float)) for x in a0) and ax(None) in (0, None):
             # a python list of per-part tensors summed over the list axis
             tot = sp.Integer(0)
@@ -1092,6 +1106,15 @@ class Translator:
 
     # ------------------------------------------------------------ operators
     def binop(self, op, a, b):
+        if isinstance(op, (ast.BitAnd, ast.BitOr)) and _boolish(a) and _boolish(b) and (is_arr(a) or is_arr(b) or is_sym(a) or is_sym(b)):
+            f = sp.And if isinstance(op, ast.BitAnd) else sp.Or  # element-wise mask algebra
+            if is_arr(a) or is_arr(b):
+                A, B = np.broadcast_arrays(np.asarray(a, dtype=object), np.asarray(b, dtype=object))
+                out = np.empty(A.shape, dtype=object)
+                for i in np.ndindex(A.shape):
+                    out[i] = f(A[i], B[i])
+                return out
+            return f(a, b)
         if is_arr(a) or is_arr(b):
             A = a if is_arr(a) else _s(a)
             B = b if is_arr(b) else _s(b)
@@ -1209,6 +1232,14 @@ class Translator:
         if rel is sp.false:
             return False
         return rel
+
+
+def _boolish(v):
+    """a truth value or an array of truth values (sympy relationals / booleans)"""
+    from sympy.logic.boolalg import Boolean
+    if isinstance(v, np.ndarray):
+        return v.dtype == object and v.size > 0 and all(isinstance(x, (bool, Boolean)) for x in v.reshape(-1))
+    return isinstance(v, (bool, Boolean))
 
 
 def _is_generator(fnode):
